@@ -351,7 +351,20 @@ pub fn run(r: &mut Runner) -> &'static str {
         .into();
     r.assumptions.push("B's 'remains valid after the buffer is dropped' is also guaranteed by the type system in a crate without unsafe; the check exercises it all the same".into());
     let n = r.n(300_000, 8_000_000);
-    r.random("c16.agree", n, 200, &gen_str, &|x: &Vec<u8>, st: &mut Stats| crate::engine::in_arena(x, |v| judge_agree(v, st)));
+    r.random("c16.agree", n, 200, &gen_str, &|x: &Vec<u8>, st: &mut Stats| {
+        crate::engine::in_arena(x, |v| judge_agree(v, st))?;
+        // the read buffer overwritten in place by another connection's data of exactly the same length: a complete short
+        // line and the start of its payload (an answer remembered per buffer address and length would be stale)
+        if x.len() >= 15 && x.len() <= 4096 {
+            let mut y = b"PROXY UNKNOWN\r\n".to_vec();
+            while y.len() < x.len() {
+                y.push(b"GET / HTTP/1.1 "[(y.len() - 15) % 15]);
+            }
+            st.class("same-length-follow-up");
+            crate::engine::in_arena(&y, |v| judge_agree(v, st))?;
+        }
+        Ok(())
+    });
     // the same check over chains of related inputs judged back to back on one thread (history independence)
     let n = r.n(40000, 1000000);
     r.random("c16.chains", n, 260, &|t| crate::gen::gen_chain(t, &gen_str), &|c: &crate::engine::Chain, st: &mut Stats| {
